@@ -6,7 +6,7 @@
    (Generated once by lib/cap.py from the capture; the per-run instances are regenerated from /repo
    on every check.) *)
 From Coq Require Import List NArith.
-From LogosV Require Import Engine.Model Engine.Cert Engine.Build Engine.Run Engine.GraphBuild Engine.ByteClass Engine.Prog Engine.Dedup Properties.All.
+From LogosV Require Import Engine.Model Engine.Cert Engine.Build Engine.Run Engine.GraphBuild Engine.ByteClass Engine.Prog Engine.Dedup Engine.Rename Properties.All.
 Import ListNotations.
 Open Scope N_scope.
 
@@ -70,3 +70,11 @@ Definition ex_C01_emitted := fun U => C01_emitted_code_maximal_munch U ex_d ex_g
 (* the parsed program run on "aac": the same regions as the reference semantics above *)
 Example ex_run_prog_aac : run_prog 8 ex_p 6 true [0;0;0] false [97;97;99] = [1;3;0;3;0;0; 2;3;3].
 Proof. vm_compute. reflexivity. Qed.
+
+(* leaves listed in another order (C18): LookEnd with its first two leaves exchanged, translated back *)
+Definition ex_swap : list leaf := [1; 0; 2].
+Definition ex_g_swapped := rename_graph (leaf_map ex_swap) ex_g.
+Definition ex_Id := mk_pairing [(0, [0]); (1, [1]); (2, [2]); (3, [3]); (4, [4]); (5, [5])].
+Example ex_reordered : gsim_ok ex_g (rename_graph (leaf_map ex_swap) ex_g_swapped) ex_Id = true. Proof. vm_compute. reflexivity. Qed.
+Example ex_reordered_differs : gsim_ok ex_g ex_g_swapped ex_Id = false. Proof. vm_compute. reflexivity. Qed.
+Definition ex_C18_reordered := C18_reordered_leaves_agree ex_g ex_g_swapped ex_swap ex_Id ex_reordered.
